@@ -26,8 +26,8 @@ pub struct C04 {
     /// per case: frames chosen greedily so that every enum-typed field path and every branch token the model reaches occurs
     covers: std::sync::Mutex<std::collections::HashMap<usize, std::sync::Arc<Vec<Frame>>>>,
     /// E/L enumeration: rows (case index, cover frame number, first index, E slots, L slots)
-    table_quick: std::sync::OnceLock<(Vec<(usize, usize, u64, u64, u64)>, u64)>,
-    table_thorough: std::sync::OnceLock<(Vec<(usize, usize, u64, u64, u64)>, u64)>,
+    table_quick: std::sync::OnceLock<(Vec<(usize, usize, u64, u64, u64, bool)>, u64)>,
+    table_thorough: std::sync::OnceLock<(Vec<(usize, usize, u64, u64, u64, bool)>, u64)>,
 }
 
 fn width(ty: &str) -> Option<usize> {
@@ -223,7 +223,7 @@ impl C04 {
             Tier::Thorough => 6,
         }
     }
-    fn table(&self, tier: Tier) -> &(Vec<(usize, usize, u64, u64, u64)>, u64) {
+    fn table(&self, tier: Tier) -> &(Vec<(usize, usize, u64, u64, u64, bool)>, u64) {
         let master = env_u64("VERIF_SEED", 1);
         let cell = match tier {
             Tier::Quick => &self.table_quick,
@@ -248,8 +248,13 @@ impl C04 {
                         _ => 0,
                     };
                     if e + l > 0 {
-                        rows.push((ci, k, total, e, l));
+                        rows.push((ci, k, total, e, l, false));
                         total += e + l;
+                    }
+                    // login: the same E sites once more through the protocol-parameterised readers
+                    if case.login.is_some() && e > 0 {
+                        rows.push((ci, k, total, e, 0, true));
+                        total += e;
                     }
                 }
             }
@@ -411,10 +416,12 @@ impl Check for C04 {
         }
         // ---------------- E / L sites
         // enumerated: row of the table -> (case, cover frame, E slot or L slot); sampled: a random case, a plain draw
+        let mut protocol_row = false;
         let (case, f, eslot, lslot) = if i < e_total {
             let (rows, _) = self.table(tier);
             let r = rows.partition_point(|row| row.2 + row.3 + row.4 <= i);
-            let (ci, k, first, e, _l) = rows[r];
+            let (ci, k, first, e, _l, proto) = rows[r];
+            protocol_row = proto;
             let s = i - first;
             let cov = self.cover(ci, master);
             (self.cases[ci].clone(), cov[k].clone(), if s < e { Some(s) } else { None }, if s >= e { Some(s - e) } else { None })
@@ -431,7 +438,15 @@ impl Check for C04 {
         let enum_fields: Vec<(usize, &FieldInfo)> = f.fields.iter().enumerate().filter(|(_, x)| matches!(x.kind, FKind::Enum { .. })).collect();
         let model = model_for(&self.ctx, &case);
         let fixed = if case.login.is_none() { model.message(&case.name).and_then(|c| fixed_size(model, c, 0)) } else { None };
-        let entry = if i % 2 == 0 { "enum".to_string() } else { format!("expect:{}", case.name) };
+        if !enumerated && case.login.is_some() && cf.chance(1, 3) {
+            protocol_row = true;
+        }
+        let entry = match (protocol_row, i % 2 == 0) {
+            (false, true) => "enum".to_string(),
+            (false, false) => format!("expect:{}", case.name),
+            (true, true) => "enum-protocol".to_string(),
+            (true, false) => format!("expect-protocol:{}", case.name),
+        };
         // E site?
         let vpf = Self::vals_per_field(tier);
         let e_pick = if enumerated {
